@@ -23,6 +23,9 @@ Singles == [i \in V |-> i]
 
 QRecord(a, ki, ko, m) ==
   [k |-> "q", n |-> N, dir |-> Directed, wtd |-> Weighted, edges |-> EdgeList,
+   \* "Q will panic if g has any edge with negative edge weight", "Modularize will panic if g has any
+   \* edge with negative edge weight": the same graph with every weight negated must be refused
+   negpanic |-> E # {},
    qs |-> {[c |-> c, g |-> g, q |-> QLabel(c, g, a, ki, ko, m)] : c \in Labelings, g \in Gammas}]
 
 QCheck == (E # {}) =>
